@@ -13,7 +13,7 @@ RES = {
                     ["textureStore({n}, vec2<i32>(0, 0), vec4<f32>(0.0));", "_ = textureDimensions({n});"]),
     "depth": ("var {n}: texture_depth_2d;", ["_ = textureLoad({n}, vec2<i32>(0, 0), 0);", "_ = textureDimensions({n});"]),
 }
-PRELUDE = "struct US { a: f32, b: vec3<f32> }\nstruct AS { c: atomic<u32> }\n"
+PRELUDE = "struct US { a: f32, b: vec3<f32> }\nstruct AS { c: atomic<u32> }\nconst DEBUG_FLAG = false;\nconst DEBUG_LEVEL = 1;\n"
 STAGES = {
     "vertex": ("@vertex fn {n}() -> @builtin(position) vec4<f32> {{\n{b}  return vec4<f32>(0.0);\n}}\n"),
     "fragment": ("@fragment fn {n}() {{\n{b}}}\n"),
@@ -21,7 +21,7 @@ STAGES = {
 }
 
 PLACEMENTS = ["top", "block", "if_accept", "if_reject", "switch_case", "switch_default", "loop_body",
-              "continuing", "nested", "nested_loop_if"]
+              "continuing", "nested", "nested_loop_if", "if_false", "if_const_flag", "else_of_true"]
 CALL_FORMS = ["stmt", "let", "cond", "arg", "discard", "fwd", "ptr"]
 
 
@@ -45,6 +45,13 @@ def place(stmt, where, uid):
         return "loop { if (c_%d > 0) { break; } continuing { %s } }" % (uid, stmt)
     if where == "nested":
         return "if (c_%d > 0) { { if (c_%d > 1) { } else { %s } } }" % (uid, uid, stmt)
+    # branches that a constant condition disables are still part of the function: static access is syntactic
+    if where == "if_false":
+        return "if (false) { %s }" % stmt
+    if where == "if_const_flag":
+        return "if (DEBUG_FLAG) { %s }" % stmt
+    if where == "else_of_true":
+        return "if (DEBUG_LEVEL < 2) { } else { %s }" % stmt
     if where == "nested_loop_if":
         return "loop { if (c_%d > 0) { break; } continuing { if (c_%d > 2) { switch (c_%d) { default: { %s } } } } }" % (uid, uid, uid, stmt)
     raise ValueError(where)
@@ -159,6 +166,12 @@ def random_program(rng, n_globals=None, n_helpers=None, depth_bias=False, stages
         b = nextb.get(grp, 0) + rng.choice([0, 0, 1, 3])
         nextb[grp] = b + 1
         p.globals.append((gname(rng, i), rng.choice(kinds), grp, b))
+    if ng >= 2 and rng.random() < 0.1:
+        # names that are equal up to a module-path decoration (as naga_oil writes them): still different variables
+        a_, b_ = 0, ng - 1
+        if p.globals[a_][2] != p.globals[b_][2]:
+            p.globals[a_] = ("paramsX_naga_oil_mod_XNRUWO2DUNFXGOX",) + p.globals[a_][1:]
+            p.globals[b_] = ("paramsX_naga_oil_mod_XMNQW2ZLSMEX",) + p.globals[b_][1:]
     if pc:
         p.push_constant = (rng.choice(PC_NAMES), rng.choice(["f32", "vec4<f32>", "mat4x4<f32>", "US", "vec3<f32>", "vec3<u32>", "vec2<i32>", "array<vec3<f32>, 2>", "mat3x3<f32>"]))
     nh = n_helpers if n_helpers is not None else rng.randint(0, 6)
